@@ -38,7 +38,7 @@ Proof. intros k H. unfold startk in H. apply andb_true_iff in H. destruct H as [
 Definition first_ok (kvs: list (kind * str)) : Prop :=
   exists k v rest, kvs = (k, v) :: rest /\ startk k = true /\ kind_eqb k K_LBRACE = false /\
     (kind_eqb k K_LPAREN = true ->
-     exists k2 v2 rest2, rest = (k2, v2) :: rest2 /\ kind_eqb k2 K_LBRACE = false /\ kind_in k2 tbl_DECL_START = false).
+     exists k2 v2 rest2, rest = (k2, v2) :: rest2 /\ kind_eqb k2 K_LBRACE = false).
 
 Lemma first_ok_app : forall x y, first_ok x -> first_ok (x ++ y).
 Proof.
@@ -50,7 +50,7 @@ Lemma first_ok_parkv : forall x, first_ok x -> first_ok (parkv x).
 Proof.
   intros x [k [v [rest [-> [H1 [H2 _]]]]]]. unfold parkv. exists K_LPAREN, (s2l "("), (((k, v) :: rest) ++ [(K_RPAREN, s2l ")")]).
   split; [reflexivity|]. split; [reflexivity|]. split; [reflexivity|]. intros _.
-  exists k, v, (rest ++ [(K_RPAREN, s2l ")")]). split; [reflexivity|]. split; [exact H2|exact (proj1 (startk_facts _ H1))].
+  exists k, v, (rest ++ [(K_RPAREN, s2l ")")]). split; [reflexivity|exact H2].
 Qed.
 
 Section Levels.
@@ -99,7 +99,7 @@ Proof.
   destruct (RoundTrip.Spell_cons_inv P _ _ _ _ HS) as [x1 [tl [El [Hk1 [_ HStl]]]]]. subst le. cbn [app] in HU |- *.
   destruct (peek_kind_up P s x1 _ HU) as [s1 [Hp1 [HU1 HS1]]].
   destruct (kind_eqb k K_LPAREN) eqn:Elp.
-  - destruct (Hlp eq_refl) as [k2 [v2 [rest2 [-> [Hk2 _]]]]].
+  - destruct (Hlp eq_refl) as [k2 [v2 [rest2 [-> Hk2]]]].
     destruct (RoundTrip.Spell_cons_inv P _ _ _ _ HStl) as [x2 [tl2 [-> [Hkx2 [_ _]]]]]. cbn [app] in HU1 |- *.
     destruct (peek2_up P s1 x1 x2 _ HU1) as [s2 [Hp2 [HU2 HS2]]]. exists s2. split; [exact HU2|]. split; [|exact (Same_trans P _ _ _ HS1 HS2)]. intros f.
     rewrite (assign_eq P). unfold bind at 1. rewrite Hp1. rewrite Hk1. cbn [okind_is]. rewrite Elp.
